@@ -178,6 +178,21 @@ def run(ctx):
             n_, c_, f_ = deep_sources(b, t['args'][1], depth=12) if len(t['args']) > 1 else (set(), set(), set())
             bad = [f for f in f_ if f in ('Attribute.content', 'ElementContent.0', 'CharacterData.0')]
             C.check(not bad, 'C01-MUST-writer', '%s|no-raw-value-write' % b.short, '%s writes a character-data value directly (%s) instead of through CharacterData::serialize_internal/escape_text' % (b.short, bad), b.where(p))
+    # every stored part of an element is written on EVERY path (not only for some layout mode): the comment test, the
+    # attribute writer and the element name are passed on all paths from the entry to the return
+    rets = [(bi, ser.nstmts(bi)) for bi in range(len(ser.blocks)) if ser.blocks[bi]['term']['k'] == 'return']
+    ctest = [pos for pos, tt in ser.iter_terms() if tt['k'] == 'switch' and is_local_op(tt['d']) and 'ElementRaw.comment' in deep_sources(ser, tt['d'], depth=8)[2]]
+    cpush = [p_ for p_ in calls(ser, r'String::push_str$') if 'ElementRaw.comment' in deep_sources(ser, ser.blocks[p_[0]]['term']['args'][1], depth=10)[2]]
+    okc = bool(ctest) and bool(cpush) and bool(rets) and must_pass(ser, (0, 0), rets, through=set(ctest))
+    if okc:
+        # on the Some edge the comment text is always pushed
+        tt = ser.blocks[ctest[0][0]]['term']
+        some_t = dict(tt['ts']).get('1', tt['else'])
+        okc = must_pass(ser, (some_t, 0), rets, through=set(cpush))
+    C.check(okc, 'C01-MUST-writer', 'Element::serialize_internal|comment-written-on-every-path', 'the comment of an element is only written on some paths of Element::serialize_internal (e.g. not for inline children of mixed content): a loaded comment is silently dropped by load -> serialize -> load',
+            '%s:%d' % (ser.file, ser.line), sample={'fn': 'serialize_internal', 'comment_test_on_every_path': True})
+    sac = calls(ser, r'impl Element>::serialize_attributes$')
+    C.check(bool(sac) and must_pass(ser, (0, 0), rets, through=set(sac)), 'C01-MUST-writer', 'Element::serialize_internal|attributes-written-on-every-path', 'the attributes of an element are not written on every path of Element::serialize_internal', '%s:%d' % (ser.file, ser.line))
     # attributes: name, =" value "
     qs = []
     for p in calls(sa, r'String::(push_str|push)$'):
